@@ -323,6 +323,126 @@ theorem chain_head_after_rdd {cfg : Cfg} : ∀ (l : List Rec) (h : Rec) (t : Lis
 
 end WorkflowModel.Engine
 
+/-! ## at most one unfinished run per foreign ID (C09) -/
+namespace WorkflowModel.Engine
+open WorkflowModel RS
+
+theorem lifecycle_finished {a b : Int} (h : Lifecycle a b) (hfin : FinishedSpec a) : FinishedSpec b := by
+  unfold Lifecycle at h; unfold FinishedSpec at *; omega
+
+/-- the persisted record of the run is finished (Completed, Cancelled, RequestedDataDeleted, DataDeleted) -/
+def FinHead (x : RunS) : Prop := ∃ h t, x.hist = h :: t ∧ FinishedSpec h.runState
+
+/-- every run that has a LATER run of the same foreign ID is finished -/
+def OneUnf (R : List RunS) : Prop :=
+  ∀ (i j : Nat) (x y : RunS), i < j → R[i]? = some x → R[j]? = some y → x.fid = y.fid → FinHead x
+
+/-- every run of the foreign ID is finished -/
+def OthersFin (R : List RunS) (fid : Fid) : Prop := ∀ (i : Nat) (x : RunS), R[i]? = some x → x.fid = fid → FinHead x
+
+/-- a write that creates a run: every existing run of its foreign ID is finished -/
+def LegalNew (R : List RunS) (w : Rec) : Prop := R[w.runId]? = none → OthersFin R w.fid
+
+theorem legalNew_existing {R : List RunS} {w : Rec} {x : RunS} (hx : R[w.runId]? = some x) : LegalNew R w := by
+  intro hn; rw [hx] at hn; cases hn
+
+theorem OneUnf.writeRuns {cfg : Cfg} {s : Sys} {w : Rec} (ho : OneUnf s.runs) (hl : Legal cfg s.runs w)
+    (hn : LegalNew s.runs w) : OneUnf (writeRuns s.runs w) := by
+  obtain ⟨_, hl⟩ := hl
+  have hle : w.runId ≤ s.runs.length := by
+    cases hR : s.runs[w.runId]? with
+    | none => rw [hR] at hl; exact Nat.le_of_eq hl.1
+    | some x0 => exact Nat.le_of_lt (List.getElem?_eq_some_iff.mp hR).1
+  unfold OneUnf
+  intro i j x y hij hx hy hfid
+  rw [writeRuns_get _ _ _ hle] at hx hy
+  cases hR : s.runs[w.runId]? with
+  | some x0 =>
+    rw [hR] at hl
+    obtain ⟨_, h0, t0, hh0, he⟩ := hl
+    -- the run written to keeps its foreign ID; every other run is untouched
+    have orig : ∀ k z, (if k = w.runId then (match s.runs[k]? with
+          | some x => some { x with hist := w :: x.hist }
+          | none => if k = s.runs.length then some { fid := w.fid, hist := [w] } else none) else s.runs[k]?) = some z →
+        ∃ z0, s.runs[k]? = some z0 ∧ z0.fid = z.fid ∧ (k ≠ w.runId → z = z0) ∧ (k = w.runId → z = { z0 with hist := w :: z0.hist }) := by
+      intro k z hz
+      by_cases hk : k = w.runId
+      · rw [if_pos hk] at hz
+        subst hk
+        rw [hR] at hz
+        simp only [Option.some.injEq] at hz
+        exact ⟨x0, hR, by rw [← hz], fun h => absurd rfl h, fun _ => hz.symm⟩
+      · rw [if_neg hk] at hz
+        exact ⟨z, hz, rfl, fun _ => rfl, fun h => absurd h hk⟩
+    obtain ⟨x', hx', hxf, hxne, hxeq⟩ := orig i x hx
+    obtain ⟨y', hy', hyf, _, _⟩ := orig j y hy
+    have hfin := ho i j x' y' hij hx' hy' (by rw [hxf, hyf]; exact hfid)
+    by_cases hi : i = w.runId
+    · have hxx := hxeq hi
+      subst hi
+      rw [hR] at hx'
+      cases hx'
+      obtain ⟨h1, t1, hh1, hf1⟩ := hfin
+      rw [hh0] at hh1
+      cases hh1
+      exact ⟨w, x0.hist, by rw [hxx], lifecycle_finished he.lifecycle hf1⟩
+    · rw [hxne hi]; exact hfin
+  | none =>
+    rw [hR] at hl
+    have hlen := hl.1
+    have hof := hn hR
+    by_cases hi : i = w.runId
+    · -- the new run is the last one: nothing comes after it
+      exfalso
+      have hj : j ≠ w.runId := by womega
+      rw [if_neg hj] at hy
+      have := (List.getElem?_eq_some_iff.mp hy).1
+      womega
+    · rw [if_neg hi] at hx
+      by_cases hj : j = w.runId
+      · rw [if_pos hj] at hy
+        subst hj
+        rw [hR] at hy
+        rw [if_pos hlen] at hy
+        simp only [Option.some.injEq] at hy
+        exact hof i x hx (by rw [hfid, ← hy])
+      · rw [if_neg hj] at hy
+        exact ho i j x y hij hx hy hfid
+
+/-- what `Latest` looks at: the last run of the foreign ID -/
+theorem othersFin_of_last {s : Sys} (ho : OneUnf s.runs) (fid : Fid)
+    (hlast : ∀ y, s.runs.reverse.find? (fun r => r.fid == fid) = some y → FinHead y) : OthersFin s.runs fid := by
+  unfold OthersFin
+  intro i x hx hxf
+  cases hf : s.runs.reverse.find? (fun r => r.fid == fid) with
+  | none =>
+    exfalso
+    have := List.find?_eq_none.mp hf x (by simpa using List.mem_of_getElem? hx)
+    simp [hxf] at this
+  | some y =>
+    have hy := hlast y hf
+    obtain ⟨hp, as, bs, hsplit, has⟩ := List.find?_eq_some_iff_append.mp hf
+    have hR : s.runs = bs.reverse ++ y :: as.reverse := by
+      have := congrArg List.reverse hsplit
+      simpa using this
+    have hjy : s.runs[bs.reverse.length]? = some y := by
+      rw [hR, List.getElem?_append_right (Nat.le_refl _)]; simp
+    by_cases hlt : i < bs.reverse.length
+    · exact ho i bs.reverse.length x y hlt hx hjy (by rw [hxf]; exact (eq_of_beq hp).symm)
+    · by_cases heq : i = bs.reverse.length
+      · rw [heq, hjy] at hx; cases hx; exact hy
+      · exfalso
+        have hgt : bs.reverse.length < i := by omega
+        rw [hR, List.getElem?_append_right (by omega)] at hx
+        have hpos : 0 < i - bs.reverse.length := by omega
+        obtain ⟨k, hk⟩ : ∃ k, i - bs.reverse.length = k + 1 := ⟨i - bs.reverse.length - 1, by omega⟩
+        rw [hk, List.getElem?_cons_succ] at hx
+        have hmem : x ∈ as := by simpa using List.mem_of_getElem? hx
+        have := has x hmem
+        simp [hxf] at this
+
+end WorkflowModel.Engine
+
 /-! ## the executable mirror `histOK` decides the invariant -/
 namespace WorkflowModel.Engine
 open WorkflowModel RS
